@@ -17,7 +17,11 @@ use crate::core::*;
 use crate::execs::*;
 
 /// (text, detached)
-pub const SNIPPETS: [(&str, bool); 40] = [
+pub const SNIPPETS: [(&str, bool); 43] = [
+    // an inherited variable set again after it was unset; export attribute removed; a read-only variable
+    ("export HOME=/nowhere", false),
+    ("export -n X", false),
+    ("readonly R=1", false),
     // names that merely start with the name of a variable scrut does not carry over
     ("TMPFILE=/x; export LANG_CODE=de", false),
     // names and variables the state carrier itself uses or inherits
@@ -65,7 +69,7 @@ pub const SNIPPETS: [(&str, bool); 40] = [
     ("Y=\"${Y:-}+\"; export Y", false),
 ];
 
-pub const PROBE: &str = r#"declare -p X Y Z arr m n IFS TMPFILE LANG_CODE code HOME OLDPWD 2>/dev/null
+pub const PROBE: &str = r#"declare -p X Y Z arr m n IFS TMPFILE LANG_CODE code HOME OLDPWD R 2>/dev/null
 declare -f af
 af 2>/dev/null || true
 declare -f f
